@@ -9,6 +9,7 @@ import (
 	"runtime"
 	"sync/atomic"
 	"testing"
+	"time"
 
 	"github.com/welllog/golib/ringz"
 	"pgregory.net/rapid"
@@ -66,9 +67,16 @@ func TestRaced(t *testing.T) {
 		}
 		rec := &pb.Rec{}
 		reps := 1
-		if i%10 == 0 {
+		timedProg := false
+		for _, th := range c.Threads {
+			for _, cl := range th {
+				timedProg = timedProg || cl.K == "popwaitT" || cl.K == "pushwaitT" || cl.K == "sleep"
+			}
+		}
+		if i%10 == 0 && !timedProg {
 			reps = 20
 		}
+		rec.ClassIf(timedProg, "timed waits / delayed calls")
 		for k := 0; k < reps; k++ {
 			if err := runRaced(c, rec); err != nil {
 				st.Violation("raced", js, err)
@@ -104,6 +112,12 @@ type loopCase struct {
 	Waits     bool // use PushWait(-1)/PopWait(-1) instead of spinning on Push/Pop in the harness
 }
 
+// stalled is returned when the run made no progress for a long time although the state-based
+// diagnosis afterwards found nothing wrong (reported as no verdict, never as a violation).
+type stalled struct{ msg string }
+
+func (e stalled) Error() string { return "INCONCLUSIVE: " + e.msg }
+
 func runLoops(c loopCase) error {
 	if c.Req < 1 || c.Req > 64 || c.Producers < 1 || c.Producers > 8 || c.Consumers < 1 || c.Consumers > 8 || c.PerProd < 1 || c.PerProd > 100000 {
 		return nil
@@ -111,7 +125,7 @@ func runLoops(c loopCase) error {
 	q := ringz.NewSync[int](c.Req)
 	capv := q.Cap()
 	total := c.Producers * c.PerProd
-	var consumed int64
+	var consumed, produced, abort int64
 	got := make([][]int, c.Consumers)
 	var lenErr atomic.Value
 	stop := make(chan struct{})
@@ -121,20 +135,20 @@ func runLoops(c loopCase) error {
 		bodies = append(bodies, func() {
 			for i := 0; i < c.PerProd; i++ {
 				v := p*1000000 + i
-				if c.Waits {
-					q.PushWait(v, -1)
-					continue
-				}
 				for !q.Push(v) {
+					if atomic.LoadInt64(&abort) != 0 {
+						return
+					}
 					runtime.Gosched()
 				}
+				atomic.AddInt64(&produced, 1)
 			}
 		})
 	}
 	for k := 0; k < c.Consumers; k++ {
 		k := k
 		bodies = append(bodies, func() {
-			for atomic.LoadInt64(&consumed) < int64(total) {
+			for atomic.LoadInt64(&consumed) < int64(total) && atomic.LoadInt64(&abort) == 0 {
 				v, ok := q.Pop()
 				if !ok {
 					runtime.Gosched()
@@ -145,10 +159,11 @@ func runLoops(c loopCase) error {
 			}
 		})
 	}
-	// observer: Len always within [0, Cap]
+	// observer: Len always within [0, Cap]; watchdog: a run without any progress for 15 s is stopped and diagnosed
 	obsDone := make(chan struct{})
 	go func() {
 		defer close(obsDone)
+		last, lastChange := int64(-1), time.Now()
 		for {
 			select {
 			case <-stop:
@@ -157,6 +172,11 @@ func runLoops(c loopCase) error {
 			}
 			if l := q.Len(); l < 0 || l > capv {
 				lenErr.CompareAndSwap(nil, fmt.Sprintf("Len() = %d outside [0, %d] during the run", l, capv))
+			}
+			if now := atomic.LoadInt64(&consumed) + atomic.LoadInt64(&produced); now != last {
+				last, lastChange = now, time.Now()
+			} else if time.Since(lastChange) > 15*time.Second {
+				atomic.StoreInt64(&abort, 1)
 			}
 			runtime.Gosched()
 		}
@@ -188,6 +208,33 @@ func runLoops(c loopCase) error {
 			last[p] = i
 		}
 	}
+	if atomic.LoadInt64(&abort) != 0 {
+		// everything has stopped: diagnose the quiescent ring sequentially (state-based, no timing involved)
+		drained := 0
+		for {
+			v, ok := q.Pop()
+			if !ok {
+				break
+			}
+			if seen[v] {
+				return fmt.Errorf("value %d popped twice", v)
+			}
+			seen[v] = true
+			if drained++; drained > capv+1 {
+				return fmt.Errorf("more than Cap() values drained from the quiescent ring")
+			}
+		}
+		if int64(len(seen)) < atomic.LoadInt64(&produced) {
+			return fmt.Errorf("no progress: %d values were pushed successfully but only %d ever came out and the quiescent ring is empty (lost values)", produced, len(seen))
+		}
+		if !q.Push(-1) {
+			return fmt.Errorf("no progress: Push fails on the drained, quiescent ring (Len %d, IsFull %v)", q.Len(), q.IsFull())
+		}
+		if v, ok := q.Pop(); !ok || v != -1 {
+			return fmt.Errorf("no progress: Pop after a successful Push on the quiescent ring = %d,%v", v, ok)
+		}
+		return stalled{fmt.Sprintf("no progress for 15s with %d of %d consumed, but the quiescent ring is consistent", consumed, total)}
+	}
 	if len(seen) != total {
 		return fmt.Errorf("%d of %d values came out (lost values)", len(seen), total)
 	}
@@ -202,7 +249,7 @@ func TestRacedLoops(t *testing.T) {
 	st.SetRule("1-4 producers x 200-3000 values and 1-4 consumers spinning on a SyncRing of requested capacity 1..9 on real goroutines under the race detector, with an observer calling Len; oracle: every value comes out exactly once, per consumer the values of one producer arrive in increasing order, Len in [0,Cap] throughout, ring empty afterwards; every drawn configuration is a case, non-trivial = >= 2 producers and >= 2 consumers")
 	gen := rapid.Custom(func(t *rapid.T) loopCase {
 		return loopCase{Req: rapid.IntRange(1, 9).Draw(t, "req"), Producers: rapid.IntRange(1, 4).Draw(t, "p"), Consumers: rapid.IntRange(1, 4).Draw(t, "c"),
-			PerProd: rapid.IntRange(200, 3000).Draw(t, "n"), Waits: rapid.Bool().Draw(t, "waits")}
+			PerProd: rapid.IntRange(200, 3000).Draw(t, "n")}
 	})
 	n := pb.Scaled(40)
 	for i := 0; i < n; i++ {
@@ -213,6 +260,10 @@ func TestRacedLoops(t *testing.T) {
 			os.WriteFile(cur, b, 0o644)
 		}
 		if err := runLoops(c); err != nil {
+			if _, inc := err.(stalled); inc {
+				st.Note("%v: %s", err, js)
+				t.Fatalf("NO-VERDICT %v", err)
+			}
 			st.Violation("raced-loops", js, err)
 			t.Fatalf("loops %s: %v", js, err)
 		}
